@@ -5,7 +5,7 @@ from __future__ import annotations
 from typing import Any
 
 from gallia.services.uds.core import service
-from gallia.services.uds.core.constants import UDSIsoServices
+from gallia.services.uds.core.constants import UDSErrorCodes, UDSIsoServices
 from gallia.services.uds.server import RandomUDSServer, UDSServer
 
 
@@ -69,6 +69,10 @@ class ModelECU(RandomUDSServer):
         self._table = {int(s): {key(k): (list(v) if v is not None else None) for k, v in sv.items()} for s, sv in services.items()}
         self.monitor = Monitor()
         self.replies: list[tuple[int, bytes, bytes | None]] = []
+        # model dimension "which response code": (session, sid) -> NRC an implemented service answers every request with
+        self.quirks: dict[tuple[int, int], int] = {}
+        # request PDUs answered busyRepeatRequest the first k times they are seen (then normally)
+        self.busy_first: dict[bytes, int] = {}
 
     def randomize(self) -> None:
         self.services = {s: dict(sv) for s, sv in self._table.items()}
@@ -80,7 +84,16 @@ class ModelECU(RandomUDSServer):
     async def respond(self, request: service.UDSRequest) -> service.UDSResponse | None:
         before = self.state.session
         self.monitor.saw(before, request.pdu)
-        resp = await super().respond(request)
+        sid = request.pdu[0] if request.pdu else -1
+        nrc = self.quirks.get((before, sid))
+        left = self.busy_first.get(bytes(request.pdu), 0)
+        if left > 0:
+            self.busy_first[bytes(request.pdu)] = left - 1
+            resp: service.UDSResponse | None = service.NegativeResponse(sid, UDSErrorCodes(0x21))
+        elif nrc is not None and any(int(k) == sid for k in self.services.get(before, {})):
+            resp = service.NegativeResponse(sid, UDSErrorCodes(nrc))
+        else:
+            resp = await super().respond(request)
         if hasattr(self, "replies"):
             self.replies.append((before, bytes(request.pdu), resp.pdu if resp is not None else None))
         return resp
